@@ -166,8 +166,19 @@ class SymStr:
         return z3.simplify(t)
 
     def __getitem__(self, key):
+        if isinstance(key, (int, SymInt)) and not isinstance(key, bool):
+            # a single character: x[i] == x[i:i+1] when i is in range (IndexError otherwise, as for str)
+            c = Ctx.cur
+            L = self._len_term()
+            t = key.t if isinstance(key, SymInt) else z3.IntVal(int(key))
+            if c.branch(z3.simplify(t < 0)):
+                t = t + L
+            if not c.branch(z3.simplify(z3.And(t >= 0, t < L))):
+                raise IndexError("string index out of range")
+            t = z3.simplify(t)
+            return self[SymInt(t):SymInt(t + 1)]
         if not isinstance(key, slice) or key.step not in (None, 1):
-            raise Unsupported("SymStr indexing other than a plain slice")
+            raise Unsupported("SymStr indexing other than a plain slice or an index")
         L = self._len_term()
         lo = self._clamp(key.start, z3.IntVal(0))
         hi = self._clamp(key.stop, L)
@@ -296,6 +307,15 @@ class SymStr:
             if not c.branch(z3.simplify(self._len_term() == o._len_term())):
                 return False
         a, b = self._resolved(), o._resolved()
+        # against a short literal: compare character by character through f
+        for x, y in ((a, b), (b, a)):
+            if all(pc[0] == "lit" for pc in y) and _builtin_len(y) <= 1 and sum(_builtin_len(pc[1]) for pc in y) <= 16 and any(pc[0] == "sl" for pc in x):
+                text = "".join(pc[1] for pc in y)
+                who = self if x is a else o
+                codes = who._chars_from(True, _builtin_len(text))
+                if codes is None:
+                    return False
+                return _decide([(cd == ord(ch)) for cd, ch in zip(codes, text)])
         if _builtin_len(a) != _builtin_len(b):
             raise Unsupported("SymStr equality between different rope shapes")
         for x, y in zip(a, b):
